@@ -28,6 +28,18 @@ structure Fixes where
   dataKeyResolve : Bool := false
   deriving DecidableEq, Repr, Inhabited
 
+/-- the repairs that are committed in /repo (61ef052 8aa6329 977a543 3508629 5c93fae 69c39a4): the
+    model of the code as it is now.  F-5 (`renameKind`) is a verified candidate that was not taken. -/
+def Fixes.committed : Fixes :=
+  { readOrder := true, childRenamedIn := true, createOverDir := true, syncRenameBoth := true,
+    fsyncResolve := true, dataKeyResolve := true }
+
+/-- `a` has at least the repairs of `b` -/
+def Fixes.includes (a b : Fixes) : Bool :=
+  (!b.readOrder || a.readOrder) && (!b.renameKind || a.renameKind) && (!b.childRenamedIn || a.childRenamedIn)
+  && (!b.createOverDir || a.createOverDir) && (!b.syncRenameBoth || a.syncRenameBoth)
+  && (!b.fsyncResolve || a.fsyncResolve) && (!b.dataKeyResolve || a.dataKeyResolve)
+
 /-! ### existence (F-5): scan with the source's kind looked up at that point of the log -/
 
 /-- `file_exists_upto`, on the reversed log (most recent op first) -/
@@ -377,15 +389,17 @@ def parentId (l : Live) (q : Path) : Option Nat :=
   | none => none
   | some par => dirIdAt l par
 
-/-- ghost update after a live step: every entry that appeared at a new place touches its new parent
-    and (if it lived elsewhere before) its old parent -/
+/-- ghost update after a live step: an entry that lived somewhere before and now appears at a new
+    place (a rename) touches its old and its new parent.  (A plain creation needs no ghost: the entry
+    is a child of its parent and becomes durable when that parent is synced.) -/
 def touchUpd (l l' : Live) (touched : List (Ent × Nat)) : List (Ent × Nat) :=
   touched ++ (l'.ents.flatMap fun qe =>
     if l.ents.contains qe then [] else
-      (match parentId l' qe.1 with | some d => [(qe.2, d)] | none => [])
-      ++ (match l.ents.find? (fun kv => kv.2 == qe.2) with
-          | some kv => (match parentId l kv.1 with | some d => [(qe.2, d)] | none => [])
-          | none => []))
+      match l.ents.find? (fun kv => kv.2 == qe.2) with
+      | some kv =>
+        (match parentId l' qe.1 with | some d => [(qe.2, d)] | none => [])
+        ++ (match parentId l kv.1 with | some d => [(qe.2, d)] | none => [])
+      | none => [])
 
 def sSyncDirBoth (l : Live) (sp : Spec) (p : Path) : Spec :=
   match dirIdAt l p with
